@@ -236,6 +236,24 @@ class SourceFile:
             body = "{ " + body + " }"
         return f"fn {name}{sig} {body}", self.toks[k].start, self.toks[bc].end
 
+    def range_as_fn(self, it: Item, start: str, stop: str, name: str, sig: str):
+        """rule X5: the statements of fn item `it` from the literal `start` to the literal `stop` (both inclusive, each
+        occurring exactly once in the body) re-headed as `fn <name><sig> { .. }`.  Returns (text, char_start, char_end)."""
+        lo, hi = self.toks[it.body_open].start, self.toks[self.toks[it.body_open].mate].end
+        body = self.src[lo:hi]
+        if body.count(start) != 1 or body.count(stop) != 1:
+            raise LostAnchor(f"range anchors occur {body.count(start)}/{body.count(stop)} times: {start[:40]!r} .. {stop[:40]!r}")
+        a = lo + body.find(start)
+        b = lo + body.find(stop) + len(stop)
+        if b <= a:
+            raise LostAnchor("range: stop anchor precedes start anchor")
+        txt = self.src[a:b]
+        # the range must be bracket-balanced
+        tk = lex(txt)
+        if any(t.kind in ("open", "close") and t.mate < 0 for t in tk):
+            raise LostAnchor("range is not bracket-balanced")
+        return f"fn {name}{sig} {{\n{txt}\n}}", a, b
+
     def text(self, it: Item) -> str:
         return self.src[self.toks[it.t0].start:self.toks[it.t1].end]
 
